@@ -146,3 +146,40 @@ def oracle_handover(case, obs):
 FAMILIES.append(Family("handover", gen_handover, impl_handover, None, None, oracle_handover,
                        lambda case, obs: json.dumps(case) if isinstance(obs, dict) and obs.get("overlap") else None,
                        shard=40, case_timeout=30))
+
+
+# ---- one preserve_context callable invoked by several threads at once: positions stay unique (line-granular schedules) ----
+from props import C06 as _c06
+
+
+def oracle_single_use(case, obs):
+    if case.get("no_context") or "raw" not in obs:
+        return None
+    if obs.get("thread_errors"):
+        return "a thread failed: %r" % (obs["thread_errors"][:1],)
+    # the callable runs in another thread after the parent action has ended, so only the uniqueness clause applies here
+    seen = set()
+    for m in obs["raw"]["1"]:
+        k = (m.get("task_uuid"), tuple(m.get("task_level") or ()))
+        if k in seen:
+            return "two messages share (task_uuid, task_level) = %s%r" % (str(k[0])[:8], list(k[1]))
+        seen.add(k)
+    return None
+
+
+FAMILIES.append(Family("single_use", _c06.gen_single, _c06.impl_single, None, None, oracle_single_use,
+                       lambda case, obs: json.dumps(case) if not case.get("no_context") else None, shard=40, case_timeout=30))
+
+
+# ---- actions opened inside generators driven round-robin (the generator family of C15): placement needs the contexts kept apart ----
+from props import C15 as _c15
+
+
+def gen_generators(rng, tier):
+    return _c15.gen_scripts(rng, tier)[:80 if tier == "quick" else 2500]
+
+
+FAMILIES.append(Family("generators", gen_generators, _c15.impl_scripts, _c15.model_scripts, _c15.model_obs_scripts,
+                       _c15.oracle_scripts, _c15.nontrivial_scripts, imports=["Model.Generators"],
+                       project=_c15.project_scripts, shrink=_c15.shrink_scripts, describe=_c15.describe_scripts,
+                       shard=100, coq_shard=30))
